@@ -150,14 +150,18 @@ def check_post(V, run, accept, oracle_bad, clause, rnd=None, site=None):
             text = "%s: clause '%s' fails for %s(%s) [%s]: outcome %s; path %s %s" % (
                 run.name, clause, run.name, ", ".join(map(repr, args)), run.ctx.config, out_str(out), d, why)
             V.violation(clause, site or run.ent.api or run.name, text,
-                        {"wrapper": run.name, "args": list(args), "config": run.ctx.config, "expected": clause,
-                         "entry_source": run.ent.source()})
+                        rp(run, args, clause))
         else:
             V.inconc("%s: clause '%s' not proved on path %s %s and no concrete counter-example found" % (run.name, clause, d, why))
     # alarms inside the clause's domain are reported by C07; here they only make the run inconclusive if unresolved
     for a in run.alarms:
         if a.status == "inconclusive":
             V.inconc("%s: %s at %s unresolved" % (run.name, a.kind, a.where))
+
+
+def rp(run, args, clause):
+    return {"wrapper": run.name, "args": list(args), "config": run.ctx.config, "expected": clause,
+            "entry_source": run.ent.source(), "params": list(run.ent.params), "ret": run.ent.ret}
 
 
 def out_str(out):
@@ -258,8 +262,7 @@ def check_equiv(V, ra, rb, clause, rnd=None, site=None, differ=None):
                 text = "%s vs %s: '%s' fails for arguments (%s) [%s]: %s vs %s" % (
                     ra.name, rb.name, clause, ", ".join(map(repr, args)), ra.ctx.config, out_str(out), out_str(rb.conc(args)))
                 V.violation(clause, site or ra.ent.api or ra.name, text,
-                            {"wrapper": ra.name, "other": rb.name, "args": list(args), "config": ra.ctx.config,
-                             "expected": clause, "entry_source": ra.ent.source(), "other_source": rb.ent.source()})
+                            dict(rp(ra, args, clause), other=rb.name, other_source=rb.ent.source()))
             else:
                 V.inconc("%s vs %s: '%s': returned forms differ on a joint path and no concrete disagreement found: %s" % (
                     ra.name, rb.name, clause, d))
@@ -302,8 +305,7 @@ def check_regions(V, run, regions, oracle_bad, clause, rnd=None, site=None):
                 text = "%s: clause '%s' (region %s) fails for %s(%s) [%s]: %s; %s" % (
                     run.name, clause, name, run.name, ", ".join(map(repr, args)), run.ctx.config, out_str(out), why)
                 V.violation(clause, site or run.ent.api or run.name, text,
-                            {"wrapper": run.name, "args": list(args), "config": run.ctx.config, "expected": clause,
-                             "entry_source": run.ent.source(), "params": run.ent.params, "ret": run.ent.ret})
+                            rp(run, args, clause))
             else:
                 V.inconc("%s: clause '%s' region %s not proved on path %s (%s) and no concrete counter-example found" % (
                     run.name, clause, name, d, why))
@@ -404,7 +406,6 @@ def check_bool(V, run, spec_truth, oracle_bad, clause, rnd=None, site=None):
         if args is not None:
             text = "%s: '%s' fails for %s(%s) [%s]: %s" % (run.name, clause, run.name, ", ".join(map(repr, args)), run.ctx.config, out_str(out))
             V.violation(clause, site or run.ent.api or run.name, text,
-                        {"wrapper": run.name, "args": list(args), "config": run.ctx.config, "expected": clause,
-                         "entry_source": run.ent.source(), "params": run.ent.params, "ret": run.ent.ret})
+                        rp(run, args, clause))
         else:
             V.inconc("%s: '%s' not proved on path %s (%s)" % (run.name, clause, describe_path(p), why))
